@@ -25,6 +25,33 @@ def tree_of(text):
     return attr_tree(s)
 import re
 IDENT = re.compile(r"^[A-Za-z_][A-Za-z0-9_']*\Z")
+# ---- repeated segments under an attrpath root (fifth round of seeds): a path whose intermediate segment is spelled like its last one
+# (`a.b.b`, `a."b c"."b c"`, `a.b.c.b`) addresses exactly that binding; the shorter path next to it is a different one
+def spell(n): return n if IDENT.match(n) and n not in KW else quote(n)
+for nm in ['b', 'x1', 'b c', 'a.b', 'if', "q'", '9z', 'é', 'b-c']:
+    for shape in ('xx', 'xyx'):
+        segs = ['a', nm, nm] if shape == 'xx' else ['a', nm, 'mid', nm]
+        path = '.'.join(spell(x) for x in segs); short = '.'.join(spell(x) for x in segs[:-1])
+        n_eval += 1; kinds['repeated-segment'] = kinds.get('repeated-segment', 0) + 1
+        try:
+            t1 = set_value(parse('{ a.other = 1; }'), path, '5'); tr1, _ = tree_of(t1)
+            if tr1 is None or tr1.get(tuple(segs)) != '5': viol.append({'what': 'a path with a repeated segment is not written as that path', 'path': path, 'text': t1}); continue
+            t2 = set_value(parse(t1), path, '6'); tr2, d2 = tree_of(t2)
+            if tr2 is None or tr2.get(tuple(segs)) != '6' or d2 or len(tr2) != len(tr1): viol.append({'what': 'a second set with a repeated-segment path does not find the same binding', 'path': path, 'text': t2}); continue
+            t3 = remove_value(parse(t2), path); tr3, _ = tree_of(t3)
+            if tr3 is None or tuple(segs) in tr3 or tr3.get(('a', 'other')) != '1': viol.append({'what': 'rm with a repeated-segment path does not remove exactly that binding', 'path': path, 'text': t3}); continue
+        except Exception as ex:
+            viol.append({'what': 'edit with a repeated-segment path raises %s' % type(ex).__name__, 'path': path}); continue
+        # the shorter path exists only as a prefix: rm of the LONGER path on a document that has only the shorter binding must be refused
+        base = '{ %s = 1; a.other = 2; }' % short
+        for op in ('rm', 'set'):
+            try:
+                d = parse(base); out = remove_value(d, path) if op == 'rm' else set_value(d, path, '7')
+                tr, _ = tree_of(out)
+                if op == 'rm' or tr is None or tr.get(tuple(segs[:-1])) != '1' and tr.get(tuple(segs)) != '7':
+                    viol.append({'what': '%s of a path that runs through an existing leaf is accepted and changes another binding' % op, 'path': path, 'doc': base, 'text': out})
+            except (KeyError, ValueError): pass
+            except Exception as ex: viol.append({'what': '%s raises %s' % (op, type(ex).__name__), 'path': path, 'doc': base})
 for i in range(N):
     names = [name() for _ in range(R.choice([1, 1, 1, 2, 3]))]
     doc = R.choice(DOCS)
